@@ -187,6 +187,12 @@ def gen(shard, rng, tier):
                 yield {"j": "decode", "profile": "release", "x": {"cls": "0X-prefix", "expect": "either", "data": b.hex(), "channel": ch},
                        "steps": [{"cli": spec}]}
     else:
+        # multi-byte characters at the first byte offsets of un-prefixed and prefixed text (where a parser that slices off a prefix
+        # by byte offset would cut a character in half): refused like any other non-hex character
+        for ch_ in ("\u00e9", "\u20ac", "\U0001f600", "\u0301", "\uff11"):
+            for text in ([lead + ch_ + tail for lead in ("", "0", "1", "a", "x", "0x", "0X", "00", "0x0", "ab") for tail in ("", "0", "00", "ab12")]):
+                spec, ch = _cli(rng, "decode", text.encode())
+                yield {"j": "decode", "profile": rng.choice(["dev", "release"]), "x": {"cls": "non-hex", "expect": "reject", "channel": ch}, "steps": [{"cli": spec}]}
         for _ in range(shard["count"]):
             n = rng.choice([1, 2, 5, 32, 200])
             h = rand_bytes(rng, n).hex()
